@@ -14,10 +14,13 @@ dropped (it has no other caller).  Nothing else is inlined: every other helper k
 site, and on a tree without such helpers the facts are unchanged.
 """
 import copy
+import json
 import re
 
 
 def strip_generics(path):
+    if path.startswith("<"):
+        return path  # `<T as Trait>::f`: the qualified self is the identity
     out = []
     depth = 0
     i = 0
@@ -72,10 +75,32 @@ def known_functions():
         import json, os
         try:
             with open(os.path.join(os.path.dirname(os.path.abspath(__file__)), "known_fns.json")) as f:
-                _KNOWN = set(json.load(f)["functions"])
+                d = json.load(f)
+            _KNOWN = set(d["functions"])
+            _KNOWN_ADTS.update(d.get("adts", []))
         except Exception:
             _KNOWN = set()
     return _KNOWN
+
+
+_KNOWN_ADTS = set()
+# std traits whose impls on a *new* crate-private type are plain conversion / accessor helpers
+CONV_TRAITS = {"std::convert::From", "std::convert::Into", "std::default::Default", "std::convert::AsRef",
+               "std::ops::Not", "std::ops::Deref", "std::convert::TryFrom"}
+
+
+def _eligible_new_type_impl(b):
+    """a hand-written impl of a std conversion trait for a type the pinned revision does not
+    have (`impl From<bool> for NotifyDecision`): statically resolved, so a helper like any other"""
+    known_functions()
+    if b.get("kind") != "AssocFn" or not b.get("impl_trait") or (b.get("loc") or {}).get("exp"):
+        return False
+    adt = b.get("impl_adt")
+    if not adt or not _KNOWN_ADTS or strip_generics(adt) in _KNOWN_ADTS:
+        return False
+    if strip_generics(b["impl_trait"]) not in CONV_TRAITS:
+        return False
+    return sum(1 for bl in b["blocks"] if not bl.get("cleanup")) <= SMALL
 
 
 def _eligible_new_helper(b):
@@ -91,6 +116,8 @@ def _eligible_new_helper(b):
 
 
 def _eligible(b):
+    if _eligible_new_type_impl(b):
+        return True
     if b.get("kind") == "Closure" or b.get("impl_trait") or str(b.get("vis")) == "Public":
         return False
     if _writes_through_mut_param(b):
@@ -346,13 +373,139 @@ def _inline_local_closure_calls(j):
     return done
 
 
+
+# ---- jump threading ------------------------------------------------------------------------------
+def _jt_exec(stmts, env, unsafe):
+    """propagate known constants (bools, data-less enum variants, their discriminants) through
+    straight-line statements"""
+    env = dict(env)
+    for st in stmts:
+        if st["k"] != "assign":
+            continue
+        pl = st["place"]
+        l = pl["l"]
+        if pl["p"]:
+            env.pop(l, None)
+            continue
+        rv = st["rv"]
+        v = None
+        if rv["k"] == "use":
+            op = rv["op"]
+            if op["k"] == "const" and op.get("ty") == "bool" and op.get("val") in ("true", "false"):
+                v = 1 if op["val"] == "true" else 0
+            elif op["k"] in ("copy", "move") and not op["place"]["p"]:
+                v = env.get(op["place"]["l"])
+        elif rv["k"] == "agg" and rv.get("agg") == "adt" and not rv.get("ops") and rv.get("vi") is not None:
+            v = ("variant", rv["vi"])
+        elif rv["k"] == "discr" and not rv["place"]["p"]:
+            x = env.get(rv["place"]["l"])
+            if isinstance(x, tuple):
+                v = x[1]
+        elif rv["k"] == "unop" and rv.get("op") == "Not" and rv["a"]["k"] in ("copy", "move") and not rv["a"]["place"]["p"]:
+            x = env.get(rv["a"]["place"]["l"])
+            if isinstance(x, int):
+                v = 1 - x
+        if v is None or l in unsafe:
+            env.pop(l, None)
+        else:
+            env[l] = v
+    return env
+
+
+def _thread_jumps(b, max_rounds=6, max_chain=6):
+    """classical jump threading: a block that ends, by straight-line code, in a switch whose
+    operand is a constant just assigned (the materialised `bool` of an inlined
+    `fn is_notify(self) -> bool { matches!(self, Notify) }`, the enum built by an inlined
+    `From<bool>`) jumps to the switch target directly; the statements on the way are copied, so
+    the rewrite preserves behaviour"""
+    blocks = b["blocks"]
+    unsafe = set()
+    for bl in blocks:
+        for st in bl["stmts"]:
+            if st["k"] == "assign" and st["rv"]["k"] in ("ref", "rawptr"):
+                unsafe.add(st["rv"]["place"]["l"])
+    defs = {}
+    for bl in blocks:
+        if bl.get("cleanup"):
+            continue
+        for st in bl["stmts"]:
+            if st["k"] == "assign":
+                defs.setdefault(st["place"]["l"], []).append(st["rv"] if not st["place"]["p"] else None)
+        t = bl["term"]
+        if t["k"] == "call":
+            defs.setdefault(t["dest"]["l"], []).append(None)
+
+    def all_const(l, depth=0):
+        """every definition of the local is a constant (directly or through copies): the
+        local only materialises which branch was taken.  A value that is a constant on one
+        path and a flag on another (`if empty { return true } .. go`) is left alone: the
+        flag analysis treats it as a derived flag"""
+        ds = defs.get(l)
+        if not ds or l <= b["arg_count"] or depth > 6 or l in unsafe or any(rv is None for rv in ds):
+            return False
+        uniq = {json.dumps({k_: v_ for k_, v_ in rv.items() if k_ != "loc"}, sort_keys=True): rv for rv in ds}
+        ds = list(uniq.values())
+        if all((rv["k"] == "use" and rv["op"]["k"] == "const") or (rv["k"] == "agg" and rv.get("agg") == "adt" and not rv.get("ops")) for rv in ds):
+            return True
+        if len(ds) != 1:
+            return False  # constant on one path, some variable on another: a derived flag
+        rv = ds[0]
+        src = None
+        if rv["k"] == "use" and rv["op"]["k"] in ("copy", "move") and not rv["op"]["place"]["p"]:
+            src = rv["op"]["place"]["l"]
+        elif rv["k"] == "discr" and not rv["place"]["p"]:
+            src = rv["place"]["l"]
+        elif rv["k"] == "unop" and rv.get("op") == "Not" and rv["a"]["k"] in ("copy", "move") and not rv["a"]["place"]["p"]:
+            src = rv["a"]["place"]["l"]
+        return src is not None and all_const(src, depth + 1)
+
+    n = 0
+    for _ in range(max_rounds):
+        changed = False
+        for bi in range(len(blocks)):
+            bl = blocks[bi]
+            if bl.get("cleanup") or bl["term"]["k"] != "goto":
+                continue
+            env = _jt_exec(bl["stmts"], {}, unsafe)
+            if not env:
+                continue
+            cur = bl["term"]["target"]
+            copied = []
+            for _step in range(max_chain):
+                cb = blocks[cur]
+                if cb.get("cleanup"):
+                    break
+                env = _jt_exec(cb["stmts"], env, unsafe)
+                copied += cb["stmts"]
+                t = cb["term"]
+                if t["k"] == "goto":
+                    cur = t["target"]
+                    continue
+                if t["k"] == "switch" and t["discr"]["k"] in ("copy", "move") and not t["discr"]["place"]["p"]:
+                    v = env.get(t["discr"]["place"]["l"])
+                    if isinstance(v, int) and all_const(t["discr"]["place"]["l"]):
+                        tgt = t["otherwise"]
+                        for tv, tb in t["targets"]:
+                            if str(tv) == str(v):
+                                tgt = tb
+                        if tgt is not None:
+                            blocks.append({"cleanup": False, "stmts": copy.deepcopy(copied), "term": {"k": "goto", "target": tgt, "loc": t["loc"]}})
+                            bl["term"] = dict(bl["term"], target=len(blocks) - 1)
+                            changed = True
+                            n += 1
+                break
+        if not changed:
+            break
+    return n
+
 def inline_outparam_helpers(j):
     """rewrites j["bodies"] in place; returns the list of inlined helper paths"""
     crate = j.get("crate")
     if isinstance(crate, dict):
         crate = crate.get("name")
     done = []
-    for _round in range(6):
+    touched = set()
+    for _round in range(48):
         bodies = j["bodies"]
         by_key = {}
         for b in bodies:
@@ -401,6 +554,7 @@ def inline_outparam_helpers(j):
             closures_used = []
             for caller, bi in ss:
                 first_new = len(caller["blocks"])
+                touched.add(caller["path"])
                 _splice(caller, bi, callee)
                 if hof:
                     closures_used += _inline_closure_calls(j, caller, first_new)
@@ -422,5 +576,10 @@ def inline_outparam_helpers(j):
             break
     done += _desugar_for_each(j)
     done += _inline_local_closure_calls(j)
+    for b in j["bodies"]:
+        if b["path"] in touched:
+            nt = _thread_jumps(b)
+            if nt:
+                done.append("%s (%d constant-decided jump(s) threaded)" % (b["path"], nt))
     j["inlined_helpers"] = done
     return done
